@@ -543,7 +543,13 @@ func (dec *decoder) decodeMapField(field j5reflect.MapField) error {
 
 	switch field := field.(type) {
 	case j5reflect.MapOfScalarField:
+		seen := map[string]struct{}{}
 		return dec.jsonObjectBody(func(keyTokenStr string) error {
+			if _, dup := seen[keyTokenStr]; dup {
+				return newFieldError(keyTokenStr, "key already exists in map")
+			}
+			seen[keyTokenStr] = struct{}{}
+
 			tok, err := dec.Token()
 			if err != nil {
 				return err
@@ -557,7 +563,13 @@ func (dec *decoder) decodeMapField(field j5reflect.MapField) error {
 		})
 
 	case j5reflect.MapOfEnumField:
+		seen := map[string]struct{}{}
 		return dec.jsonObjectBody(func(keyTokenStr string) error {
+			if _, dup := seen[keyTokenStr]; dup {
+				return newFieldError(keyTokenStr, "key already exists in map")
+			}
+			seen[keyTokenStr] = struct{}{}
+
 			tok, err := dec.Token()
 			if err != nil {
 				return err
